@@ -6,6 +6,7 @@ import Hive.Proofs.AdsConc
 import Hive.Proofs.AdsRealm
 import Hive.Proofs.AdsId
 import Hive.Proofs.AdsTyped
+import Hive.Model.AdsFault
 import Hive.Gen.C09_Skel
 import Hive.Gen.C09_Consts
 /-!
@@ -978,6 +979,52 @@ example : let cd : KVCodec (List UInt8) (List UInt8) :=
   refine ⟨?_, ?_⟩ <;> intro a b h <;> simp at h <;> subst h <;> rfl
 
 end Typed
+
+/-! ## store write faults (`Hive/Model/AdsFault.lean`): what a failing call leaves behind -/
+
+section Faults
+variable {B : Type}
+
+/-- **A `Commit` that cannot store the root changes nothing** (root cell, node store, trie, raw keys, size) and answers
+"failed to set root" — whether the encoder fails (`C09_id_codec_invisible`) or the write of the root cell does. -/
+theorem C09_fault_root_write_noop (c : Cfg R) (ic : IdCodec R B) (same : R → R → Bool) (st : ISt R B)
+    (hd : st.dangling = none) :
+    fstep c ic same .rootW st .commit = (st, .out .errSetRoot) := by
+  simp [fstep, hd]
+
+/-- **`Set` / `Delete` have no roll-back, and the trie is always ahead**: under a write fault of the size cell or of
+the raw-key store, the trie after the call is the trie after the successful call (so `Root`, `Get`, `Has` follow the
+calls that were *attempted*), the node store and the root cell are untouched; what lags is stated by
+`C09_fault_what_lags`. -/
+theorem C09_fault_trie_follows_attempts (c : Cfg R) (ic : IdCodec R B) (same : R → R → Bool) (f : Fault)
+    (hf : f = .sizeW ∨ f = .rawW) (st : ISt R B) (hd : st.dangling = none) (k : Option Key) (v : Option Val) :
+    (fstep c ic same f st (.set k v)).1.s.trie = (step c st.s (.set k v)).1.trie ∧
+    (fstep c ic same f st (.del k)).1.s.trie = (step c st.s (.del k)).1.trie ∧
+    (fstep c ic same f st (.set k v)).1.cell = st.cell ∧ (fstep c ic same f st (.del k)).1.cell = st.cell := by
+  rcases hf with rfl | rfl <;> cases k <;> cases v <;>
+    simp [fstep, hd, istep, istepG, step] <;>
+    (try split) <;> (try split) <;> simp_all [addSize, istep, istepG, step]
+
+/-- What lags after a call that failed half way: with the size cell failing, a `Set` of a new key leaves the raw keys
+updated and the size as it was; with the raw-key store failing, a `Set` leaves raw keys *and* size as they were. -/
+theorem C09_fault_what_lags (c : Cfg R) (ic : IdCodec R B) (same : R → R → Bool) (st : ISt R B)
+    (hd : st.dangling = none) (kb : Key) (vb : Val) (hnew : has st.s kb = false) :
+    (fstep c ic same .sizeW st (.set (some kb) (some vb))) =
+      ({ st with s := { st.s with trie := st.s.trie.update kb vb, rawKeys := insertSorted kb st.s.rawKeys } }, .errSize) ∧
+    (fstep c ic same .rawW st (.set (some kb) (some vb))) =
+      ({ st with s := { st.s with trie := st.s.trie.update kb vb } }, .errRaw) := by
+  simp [fstep, hd, hnew]
+
+/-- Hence `Size` ≠ number of keys after a failed `addSize` (the code has no roll-back; store faults are outside the
+property's quantifier): one `Set` under a failing size cell — `Has` says true, `Size` says 0. -/
+theorem C09_fault_size_lags_witness :
+    let c : Cfg Unit := { rootOf := fun _ => (), dec := fun _ => .ok }
+    let ic : IdCodec Unit Unit := { enc := some, dec := some }
+    let st := (fstep c ic (fun _ _ => true) .sizeW ISt.init (.set (some [1]) (some [2]))).1
+    has st.s [1] = true ∧ sizeOf st.s = 0 ∧ st.s.rawKeys = [[1]] := by
+  decide
+
+end Faults
 
 /-! ## the hypotheses are satisfiable; a concrete non-trivial run -/
 
